@@ -44,3 +44,86 @@ def read_call(reqs):
 def write_call(reqs, flat=False):
     return {"api": "write", "tags": [tag_string(r) for r in reqs], "values": [r["value"] for r in reqs], "flat": flat,
             "intent": {"items": [intent_of(r) for r in reqs]}}
+
+
+# ---------------------------------------------------------------------------------------------------------------------
+# generic messaging (C14 / C13 / C11)
+def big(n):
+    from .values import int_term
+    return int_term(n)["i"]
+
+
+ROUTE_FORMS = ["true", "false", "str", "segs", "bytes"]
+PORTNUM = {"bp": 1, "backplane": 1, "enet": 2, "cnet": 2, "dnet": 2, "dhrio-a": 2, "dhrio-b": 3}
+
+
+def port_seg(p, link):
+    """intent form of one hop; link: int or dotted string"""
+    pn = PORTNUM[p] if isinstance(p, str) else p
+    lb = [int(link)] if (isinstance(link, int) or str(link).isdigit()) else [ord(c) for c in link]
+    return {"k": "port", "port": pn, "link": lb}
+
+
+def route_bytes(hops):
+    """independent encoder of a sized port route with the reserved byte (used for the 'bytes' route form)"""
+    out = b""
+    for h in hops:
+        link = bytes(h["link"])
+        if len(link) == 1:
+            out += bytes([h["port"]]) + link
+        else:
+            out += bytes([0x10 | h["port"], len(link)]) + link + (b"\x00" if len(link) % 2 else b"")
+    return bytes([len(out) // 2, 0]) + out
+
+
+def generic_call(rnd, driver_route, mode=None, script=None):
+    ids = [1, 2, 0x6B, 0x64, 255, 256, 300, 65535, 65536, 70000, 2 ** 31, 2 ** 32 - 1]
+    service = rnd.choice([0x01, 0x03, 0x0E, 0x10, 0x4C, 0x4B, 0x7F, rnd.randint(1, 0x7F)])
+    cls = rnd.choice([x for x in ids if x not in (6, 2)] + [0xF5, 0xF6, 0x8C])
+    inst = rnd.choice(ids + [0])
+    attr = rnd.choice([None, None, 1, 7, 255, 256, 65535])
+    n = rnd.choice([0, 0, 1, 2, 3, 7, 8, 33, 100, 399, 400])
+    data = bytes(rnd.getrandbits(8) for _ in range(n))
+    mode = mode or rnd.choice(["connected", "ucmm", "ucsend"])
+    kw = {"service": service, "request_data": {"__b": list(data)}, "connected": mode == "connected", "unconnected_send": mode == "ucsend"}
+
+    def idarg(v):
+        if rnd.random() < 0.3:
+            w = 1 if v < 256 else 2 if v < 65536 else 4
+            return {"__b": list(v.to_bytes(w, "little"))}
+        return v
+    kw["class_code"], kw["instance"] = idarg(cls), idarg(inst)
+    if attr is not None:
+        kw["attribute"] = idarg(attr)
+    it = {"service": service, "cls": big(cls), "inst": big(inst), "attr": big(attr) if attr is not None else [], "data": list(data),
+          "connected": 1 if mode == "connected" else 0, "ucsend": 1 if mode == "ucsend" else 0, "hasroute": 0, "routesegs": []}
+    if mode != "connected":
+        forms = ["true", "str", "segs", "bytes"] + (["false"] if mode == "ucmm" else [])
+        form = rnd.choice(forms)
+        hops = [(rnd.choice(["bp", "backplane", "enet", "cnet", "dhrio-b"]), rnd.choice([0, 1, 5, 17, 255, "10.11.12.13", "1.2.3.4", "192.168.1.20"]))
+                for _ in range(rnd.randint(1, 3))]
+        segs = [port_seg(p, l) for p, l in hops]
+        if form == "true":
+            kw["route_path"] = True
+            it.update({"hasroute": 1, "routesegs": driver_route})
+        elif form == "false":
+            kw["route_path"] = False
+        elif form == "str":
+            kw["route_path"] = rnd.choice(["/", "\\"]).join("%s%s%s" % (p, rnd.choice(["/", "\\"]), l) for p, l in hops)
+            if "\\" in kw["route_path"] or True:
+                kw["route_path"] = "/".join("%s/%s" % (p, l) for p, l in hops) if rnd.random() < 0.5 else "\\".join("%s\\%s" % (p, l) for p, l in hops)
+            it.update({"hasroute": 1, "routesegs": segs})
+        elif form == "segs":
+            kw["route_path"] = {"__segs": [[p, l] for p, l in hops]}
+            it.update({"hasroute": 1, "routesegs": segs})
+        else:
+            kw["route_path"] = {"__b": list(route_bytes(segs))}
+            it.update({"hasroute": 1, "routesegs": segs})
+        it["form"] = form
+    # reply chosen by the scenario
+    if script is None:
+        st = rnd.choice([0, 0, 0, 0, 1, 4, 5, 6, 8, 0x0F, 0x14, 0x1E, 0xFF, rnd.randint(0, 255)])
+        ext = [] if st == 0 else rnd.choice([[], [rnd.randint(0, 65535)], [0x2105], [1, 2]])
+        rdata = bytes(rnd.getrandbits(8) for _ in range(rnd.choice([0, 1, 2, 4, 8, 9, 33, 200])))
+        script = {"status": st, "ext": ext, "data": list(rdata)}
+    return {"api": "generic", "kwargs": kw, "intent": it}, script
